@@ -355,12 +355,21 @@ PROPS["C04"]["functions"] += [_TK, _NGK, "vectorizers/timed_token_cooccurrence_v
 # the EM iteration kernels (one pass over the corpus around em_update_matrix): memory safety + every precondition of em_update_matrix
 _EMK = [f + "::numba_em_cooccurrence_iteration" for f in ("vectorizers/token_cooccurrence_vectorizer.py", "vectorizers/ngram_token_cooccurence_vectorizer.py",
                                                           "vectorizers/timed_token_cooccurrence_vectorizer.py")]
+_EMK += ["vectorizers/multi_token_cooccurence_vectorizer.py::numba_multi_em_cooccurrence_iteration"]
 for _p in ("C10", "C11"):
     PROPS[_p]["functions"] += _EMK
 
 # the multiset kernels (one weight per element of the flattened window): shape, target and offset semantics, non-negativity
 for _p in ("C03", "C14", "C10"):
     PROPS[_p]["functions"] += [WK + "multi_flat_kernel", WK + "multi_geometric_kernel"]
+
+for _p in ("C06", "C10"):
+    PROPS[_p]["functions"] += ["vectorizers/skip_gram_vectorizer.py::sequence_skip_grams"]
+for _p in ("C18", "C10"):
+    PROPS[_p]["functions"] += ["vectorizers/distances.py::" + _f for _f in ("sparse_diff", "sparse_total_variation", "sparse_jensen_shannon_divergence", "sparse_symmetric_kl_divergence")]
+
+for _p in ("C17", "C10"):
+    PROPS[_p]["functions"] += ["vectorizers/transformers/info_weight.py::column_weights"]
 
 # C04: the document chunks handed to the worker threads partition the corpus (for every n_threads and every corpus)
 PROPS["C04"]["functions"] += ["vectorizers/base_cooccurrence_vectorizer.py::BaseCooccurrenceVectorizer._generate_chunk_boundaries",
@@ -386,7 +395,7 @@ _NOTES = {
     "C06": "ngrams_of (both behaviours), sum_coo_entries and build_skip_grams are under contract; the estimator glue (dictionary building, matrix assembly, `+`) is structural/bounded.",
     "C07": "The optimiser is external (pynndescent.optimal_transport); only the read-out of the plan from the flow vector is proved, relative to the stated arc_id contract. "
            "Feasibility and optimality are bounded (HiGHS reference).",
-    "C11": "em_update_matrix and the three EM iteration kernels around it are under contract (memory safety, support, frame, every call-site precondition); the "
+    "C11": "em_update_matrix and the four EM iteration kernels around it are under contract (memory safety, support, frame, every call-site precondition); the "
            "normalisation, the epsilon thresholding and the values of the refined matrix are bounded.",
     "C12": "Row-independence of the estimators is bounded; deductive: the row partitions (loops AND their block/chunk counts), LZ / sliding-window / row-denoise kernels' frames.",
     "C13": "Side-effect freedom of the estimators is structural (no-mutator, copy=True, scratch-file removal calls) + bounded snapshots; frames of the helpers are proved "
